@@ -501,6 +501,22 @@ def pat_inverse_pair(rng, s):
     return [x, x.I] if rng.random() < 0.5 else [x.I, x]
 
 
+def pat_rotation_inverse_pair(rng, s):
+    """a rotation next to its own transpose object, which is also its lazy INVERSE (orthogonal operator): two rules
+    match the pair — the inverse rule, registered first, makes it vanish.  One variant puts a rotation·rotation merge
+    earlier in the scan of the same chain (operand order = reversed application order)"""
+    r = mk_qurot(rng, s)
+    if r is None:
+        return None
+    pair = [r, r.T] if rng.random() < 0.5 else [r.T, r]
+    if rng.random() < 0.5:
+        d = mk_diagonal(rng, s)
+        r1, r2 = mk_qurot(rng, s), mk_qurot(rng, s)
+        if d is not None:
+            return pair + [d, r1, r2]
+    return pair
+
+
 def pat_lazy_inverse_pair(rng, s):
     x = mk_toeplitz(rng, s, spd=True)
     if x is None:
@@ -690,7 +706,7 @@ def pat_block_rule_identities(rng, s):
     return [BlockDiagonalOperator(rebuild_container(s, firsts)), BlockDiagonalOperator(rebuild_container(s, seconds))]
 
 
-PATTERNS = [pat_inverse_pair, pat_lazy_inverse_pair, pat_rotations, pat_rot_hwp, pat_pol_hwp,
+PATTERNS = [pat_inverse_pair, pat_rotation_inverse_pair, pat_lazy_inverse_pair, pat_rotations, pat_rot_hwp, pat_pol_hwp,
             pat_index, pat_index_multi, pat_index_unique, pat_index_repeats, pat_pack, pat_reshape, pat_moveaxis, pat_block_diag_diag, pat_block_col_diag,
             pat_block_single, pat_block_nested, pat_sandwich, pat_identity, pat_scalars, pat_block_rule_identities]
 
@@ -728,7 +744,7 @@ def gen_chain(rng: random.Random, s, length: int, depth: int, p_pattern: float =
 PATTERN_STRUCTURES = {
     'pat_rotations': 'stokes', 'pat_rot_hwp': 'stokes', 'pat_pol_hwp': 'stokes', 'pat_moveaxis': 'mat',
     'pat_sandwich': 'matlist', 'pat_lazy_inverse_pair': 'vec', 'pat_block_diag_diag': 'container',
-    'pat_block_rule_identities': 'matlist', 'pat_index_multi': 'mat',
+    'pat_block_rule_identities': 'matlist', 'pat_index_multi': 'mat', 'pat_rotation_inverse_pair': 'stokes',
 }
 
 
